@@ -44,6 +44,9 @@ type ProbeImpl struct {
 	Act    bus.Activation
 	mu     sync.Mutex
 	Terms  int
+	// OnActivate, when set, runs within Activate (the object is not yet in
+	// place: it may give its identifier away and take its time)
+	OnActivate func(bus.Activation)
 	// SlowMs is the number of simulated milliseconds Slow sleeps.
 	SlowMs int
 	// ValidatorYields makes the property validator take its time (that many
@@ -62,6 +65,9 @@ type ProbeImpl struct {
 func (p *ProbeImpl) Activate(a bus.Activation, h probe.ProbeSignalHelper) error {
 	p.Helper = h
 	p.Act = a
+	if p.OnActivate != nil {
+		p.OnActivate(a)
+	}
 	if p.Env != nil && p.Env.C.P("unset_level", 0) == 1 {
 		// a declared property that has no value until somebody writes it
 		return nil
